@@ -316,6 +316,23 @@ func TestCheck(t *testing.T) {
 				c.Inconclusive(fmt.Sprintf("reference capacity(%d,%d,%d)=%d, published %d", a.mode, a.v, a.level, got, a.want))
 			}
 		}
+		// first builds in this process, in an order that is neither ascending nor gap-free: whatever a
+		// build leaves behind (lazily filled tables, memos) must not change a later symbol
+		{
+			rng := hx.NewRng(c.Seed("first_builds", 0))
+			order := []int{40, 21, 9, 33, 8, 12, 7, 27, 10, 26}
+			for i := 0; i < 12; i++ {
+				order = append(order, 1+rng.Intn(40))
+			}
+			for i, v := range order {
+				lv := (i + c.P.Shard) % 4
+				cs := SymCase{V: v, Level: lv, Mask: (i * 3) % 8, Mode: qrref.Alnum, Text: fmt.Sprintf("ORDER %d", v)}
+				c.Note("first_builds_in_mixed_order", fmt.Sprintf("position=%d", min(i, 10)), true, hx.HashS("order", fmt.Sprint(i, v, lv)), func() any { return cs })
+				if !c.Enum("first_builds_in_mixed_order", "sym", cs, nil) {
+					break
+				}
+			}
+		}
 		// tables: all versions, all format words
 		for v := 1; v <= 40; v++ {
 			if c.Mine(v) {
